@@ -128,8 +128,9 @@ class Image:
         return h.hexdigest()
 
 
-def recover(d, timeout=30):
-    """start the real recovery code on an image; returns the observable state or an error marker"""
+def recover(d, timeout=30, tail=None):
+    """start the real recovery code on an image; returns the observable state or an error marker.
+    tail=N: for very long logs only the last N entries are returned verbatim, the rest as a verified summary"""
     try:
         s = Session(d)
     except SessionDied:
@@ -138,7 +139,15 @@ def recover(d, timeout=30):
         if not s.ready.get("ready"):
             return {"recovered": False, "why": "initial state failed", "detail": s.ready}
         out = {"recovered": True, "state": s.ready.get("state")}
-        r = s.call("read", lo=0, hi=10**9)
+        lo = 0
+        if tail:
+            h = s.call("read", lo=0, hi=10**9, compact=True)
+            if not h.get("ok"):
+                return {"recovered": False, "why": "read failed", "detail": h}
+            out["head"] = h
+            if h.get("last"):
+                lo = max(0, h["last"][0] - tail)
+        r = s.call("read", lo=lo, hi=10**9)
         if not r.get("ok"):
             return {"recovered": False, "why": "read failed", "detail": r}
         out["entries"] = r["entries"]
@@ -184,6 +193,19 @@ class MetaGen:
         r = self.r
         c = r.random()
         meta_bias = 0.45 if self.profile == "meta" else 0.18
+        if self.profile == "snap" and c < 0.35:
+            # apply-then-compact cycles: CompleteSnapshot unlinks the oldest snapshot from the third one on
+            if self.last > self.applied:
+                self.applied = self.last
+                self.ops.append({"op": "save_applied", "k": self.applied})
+            if self.applied > self.max_ptr + 1:
+                idx = self.applied
+                self.snap += 1
+                self.max_ptr = idx
+                self.ops.append({"op": "snapshot_build", "last_index": idx, "last_term": self.term, "records": r.choice([1, 5, 30]), "rec_len": r.choice([10, 500])})
+                self.ops.append({"op": "pointer_build", "index": idx, "term": self.term, "snap_id": self.snap})
+                self.features.add("snapshot+pointer")
+                return
         if c < meta_bias:
             k = r.random()
             if k < 0.4:
@@ -316,6 +338,18 @@ def entries_of(op):
     return []
 
 
+_ROWS = {}
+
+
+def rows_of(op):
+    """JSON rows of the entries an op submits (memoised on the op)"""
+    r = _ROWS.get(id(op))
+    if r is None:
+        r = frozenset(json.dumps(expect_row(e)) for e in entries_of(op))
+        _ROWS[id(op)] = r
+    return r
+
+
 def expect_row(e):
     i, t, uid, ln = e
     return [i, t, "blank", 0, 0, True] if ln == BLANK else [i, t, "normal", uid, ln, True]
@@ -348,8 +382,7 @@ def check_image(table, markers, rec):
     for n in submitted:
         op, resp = table[n]
         name = op["op"]
-        for e in entries_of(op):
-            all_submitted_rows.add(json.dumps(expect_row(e)))
+        all_submitted_rows |= rows_of(op)
         is_ack = n in acked
         if name in ("append", "batch"):
             if is_ack:
@@ -373,6 +406,14 @@ def check_image(table, markers, rec):
     got = rec["entries"]
     prev = None
     seen = {}
+    head = rec.get("head")
+    first_verbatim = got[0][0] if got else 0
+    if head:
+        # long log: everything below the verbatim tail was checked inside the session (contiguous, payloads regenerate)
+        if not head.get("contiguous") or not head.get("all_ok"):
+            out.append(("log-not-contiguous" if not head.get("contiguous") else "entry-never-submitted", {"summary": {k: head.get(k) for k in ("count", "first", "last", "bad")}}))
+        if head.get("first") and head.get("last") and head["count"] != head["last"][0] - head["first"][0] + 1:
+            out.append(("log-not-contiguous", {"summary_count": head["count"], "first": head["first"][0], "last": head["last"][0]}))
     for g in got:
         if prev is not None and g[0] != prev + 1:
             out.append(("log-not-contiguous", {"at": g[0], "prev": prev}))
@@ -389,6 +430,9 @@ def check_image(table, markers, rec):
             continue
         if pending_cut is not None and i >= pending_cut:
             continue      # may or may not be gone yet
+        if head and i < first_verbatim:
+            if head.get("first") and head["first"][0] <= i:
+                continue          # covered by the verified summary
         if i not in seen:
             out.append(("acknowledged-entry-missing", {"index": i, "returned": len(got), "last_returned": got[-1][0] if got else None}))
             break
